@@ -1,7 +1,602 @@
-//! C08 — not built yet.
+//! C08 — violations point at the right place in the source file.
+//!
+//! Group `linepos`: direct calls of the pub `TemplatedFile::get_line_pos_of_char_pos` on
+//! random (text, offset) for both newline tables, vs the Gallina `get_line_pos_of_char_pos`.
+//! Group `viol`: generated SQL files linted under raw and placeholder templating; every
+//! reported violation's `(line_no, line_pos, source_slice)` vs the Gallina
+//! `set_position_marker` recomputed from the *source* text and the violation's source range,
+//! plus the same recomputation in plain Rust and the range check (direct observations).
+//! Group `marker`: every position marker of the parse tree of the same files:
+//! `source_position()` / `templated_position()` vs the model on the real (source, templated) ranges.
+use serde_json::{Value as J, json};
+use sqruff_lib::core::config::{FluffConfig, Value};
+use sqruff_lib::core::linter::core::Linter;
+use sqruff_lib_core::parser::segments::base::Tables;
+use sqruff_lib_core::templaters::base::{RawFileSlice, TemplatedFile, TemplatedFileSlice};
+
 use crate::common::*;
 
-pub fn main(_args: &Args) {
-    eprintln!("c08: not built yet");
-    std::process::exit(2);
+// ------------------------------------------------------------------ plain-Rust reference
+/// 1-based (line, column in bytes) of byte offset `p` of `s`, by a left-to-right scan.
+fn linecol(s: &[u8], p: usize) -> (usize, usize) {
+    let (mut line, mut start) = (1usize, 0usize);
+    for (i, b) in s.iter().enumerate() {
+        if i >= p {
+            break;
+        }
+        if *b == b'\n' {
+            line += 1;
+            start = i + 1;
+        }
+    }
+    (line, p - start + 1)
+}
+
+// ------------------------------------------------------------------ group linepos
+fn gen_text(rng: &mut Rng) -> String {
+    let n = match rng.below(6) {
+        0 => 0,
+        1 => rng.range(1, 3),
+        2 => rng.range(1, 12),
+        _ => rng.range(4, 60),
+    };
+    let nl_weight = *rng.pick(&[0usize, 1, 1, 2, 5, 9]);
+    let mut s = String::new();
+    for _ in 0..n {
+        if rng.below(10) < nl_weight {
+            s.push('\n');
+        } else {
+            s.push(*rng.pick(&['a', 'b', ' ', 'S', ',', '\t', '\r', 'x']));
+        }
+    }
+    match rng.below(8) {
+        0 => s.insert(0, '\n'),
+        1 => s.push('\n'),
+        2 => {
+            s.insert(0, '\n');
+            s.push('\n')
+        }
+        3 => s.push_str("\n\n\n"),
+        _ => {}
+    }
+    s
+}
+
+fn gen_offsets(rng: &mut Rng, s: &str) -> Vec<usize> {
+    let len = s.len();
+    let mut ps = vec![0, len, len + 1, len + rng.range(2, 40)];
+    for (i, b) in s.bytes().enumerate() {
+        if b == b'\n' && rng.chance(2, 3) {
+            ps.push(i);
+            ps.push(i + 1);
+            if i > 0 {
+                ps.push(i - 1);
+            }
+        }
+    }
+    for _ in 0..4 {
+        ps.push(rng.below(len + 2));
+    }
+    ps.sort();
+    ps.dedup();
+    ps
+}
+
+/// A templated file whose two texts differ: `src` with every `@` replaced by `val`.
+fn mk_templated(src: &str, val: &str) -> Option<TemplatedFile> {
+    let mut slices = vec![];
+    let mut raws = vec![];
+    let mut out = String::new();
+    let mut last = 0usize;
+    for (i, _) in src.match_indices('@') {
+        slices.push(TemplatedFileSlice::new("literal", last..i, out.len()..out.len() + (i - last)));
+        raws.push(RawFileSlice::new(src[last..i].to_string(), "literal".to_string(), last, None, None));
+        out.push_str(&src[last..i]);
+        slices.push(TemplatedFileSlice::new("templated", i..i + 1, out.len()..out.len() + val.len()));
+        raws.push(RawFileSlice::new("@".to_string(), "templated".to_string(), i, None, None));
+        out.push_str(val);
+        last = i + 1;
+    }
+    if src.len() > last {
+        slices.push(TemplatedFileSlice::new("literal", last..src.len(), out.len()..out.len() + (src.len() - last)));
+        raws.push(RawFileSlice::new(src[last..].to_string(), "literal".to_string(), last, None, None));
+        out.push_str(&src[last..]);
+    }
+    TemplatedFile::new(src.to_string(), "<c08>".to_string(), Some(out), Some(slices), Some(raws)).ok()
+}
+
+struct LpItem {
+    cls: &'static str,
+    src: String,
+    val: Option<String>,
+    ps: Vec<usize>,
+}
+
+fn run_linepos(it: &LpItem, out: &mut Buf) {
+    let input = json!({"kind":"linepos","src":it.src,"val":it.val,"ps":it.ps});
+    let r = catch(|| {
+        let tf = match &it.val {
+            None => Some(TemplatedFile::from(it.src.as_str())),
+            Some(v) => mk_templated(&it.src, v),
+        };
+        tf.map(|tf| {
+            let tpl = tf.templated().to_string();
+            let got: Vec<(usize, bool, (usize, usize))> = it
+                .ps
+                .iter()
+                .flat_map(|p| [(*p, true, tf.get_line_pos_of_char_pos(*p, true)), (*p, false, tf.get_line_pos_of_char_pos(*p, false))])
+                .collect();
+            (tpl, got)
+        })
+    });
+    let (tpl, got) = match r {
+        Ok(Some(x)) => x,
+        Ok(None) => {
+            out.count("linepos_constructor_rejected", 1);
+            return;
+        }
+        Err(msg) => {
+            out.count("linepos_panics", 1);
+            out.direct("linepos-panic", false, "c08-linepos-panic", &format!("get_line_pos_of_char_pos panicked: {}", msg), input);
+            return;
+        }
+    };
+    out.count("linepos_calls", got.len());
+    let mut bad = None;
+    for (p, source, lc) in &got {
+        let text = if *source { it.src.as_bytes() } else { tpl.as_bytes() };
+        if *lc != linecol(text, *p) && bad.is_none() {
+            bad = Some(format!("get_line_pos_of_char_pos({}, {}) = {:?}, recomputed {:?}", p, source, lc, linecol(text, *p)));
+        }
+        if *p > text.len() {
+            out.count("linepos_calls_beyond_len", 1);
+        }
+        if text.get(*p) == Some(&b'\n') {
+            out.count("linepos_calls_at_newline", 1);
+        }
+    }
+    out.direct("linepos", bad.is_none(), "c08-linepos", bad.as_deref().unwrap_or(""), input.clone());
+    let args = g_tuple(&[
+        g_str(&it.src),
+        g_str(&tpl),
+        g_list(got.iter().map(|(p, s, _)| g_tuple(&[g_n(*p), g_bool(*s)]))),
+    ]);
+    let exp = g_list(got.iter().map(|(_, _, (l, c))| g_tuple(&[g_n(*l), g_n(*c)])));
+    let nontrivial = it.src.contains('\n');
+    out.case("linepos", it.cls, nontrivial, args, exp, json!({"input":input,"templated":tpl,"got":got.iter().map(|(p,s,lc)| json!([p,s,lc.0,lc.1])).collect::<Vec<_>>()}));
+}
+
+// ------------------------------------------------------------------ group viol / marker
+/// (style key, is param_regex, placeholder text for name/index)
+struct Style {
+    name: &'static str,
+    regex: Option<&'static str>,
+    positional: bool,
+    numeric: bool,
+}
+const STYLES: &[Style] = &[
+    Style { name: "colon", regex: None, positional: false, numeric: false },
+    Style { name: "colon_nospaces", regex: None, positional: false, numeric: false },
+    Style { name: "numeric_colon", regex: None, positional: false, numeric: true },
+    Style { name: "pyformat", regex: None, positional: false, numeric: false },
+    Style { name: "dollar", regex: None, positional: false, numeric: false },
+    Style { name: "question_mark", regex: None, positional: true, numeric: true },
+    Style { name: "numeric_dollar", regex: None, positional: false, numeric: true },
+    Style { name: "percent", regex: None, positional: true, numeric: true },
+    Style { name: "ampersand", regex: None, positional: false, numeric: false },
+    Style { name: "custom", regex: Some(r"__(?P<param_name>[\w_]+)__"), positional: false, numeric: false },
+];
+
+/// Text of the `k`-th placeholder (0-based) and the parameter name the templater will look up.
+fn placeholder(st: &Style, k: usize, rng: &mut Rng) -> (String, String) {
+    const NAMES: [&str; 4] = ["x", "my_param", "p", "some_longer_name"];
+    let nm = NAMES[k % NAMES.len()].to_string();
+    let num = (k + 1).to_string();
+    match st.name {
+        "colon" | "colon_nospaces" => (format!(":{}", nm), nm),
+        "numeric_colon" => (format!(":{}", num), num),
+        "pyformat" => (format!("%({})s", nm), nm),
+        "dollar" => (if rng.chance(1, 2) { format!("${}", nm) } else { format!("${{{}}}", nm) }, nm),
+        "question_mark" => ("?".to_string(), num),
+        "numeric_dollar" => (if rng.chance(1, 2) { format!("${}", num) } else { format!("${{{}}}", num) }, num),
+        "percent" => ("%s".to_string(), num),
+        "ampersand" => (if rng.chance(1, 2) { format!("&{}", nm) } else { format!("&{{{}}}", nm) }, nm),
+        _ => (format!("__{}__", nm), nm),
+    }
+}
+
+/// SQL skeletons: `@` marks a slot where a placeholder (an expression / column list) goes.
+/// Everything after the first slot contains layout / capitalisation / aliasing violations.
+const SKELETONS: &[&str] = &[
+    "SELECT @,\n   b  from t\n",
+    "SELECT @,  b from t\n",
+    "select a, @ ,c\nFROM  t\nwhere  a =  1\n",
+    "SELECT a\nFROM t\nWHERE c = @  and d  = 2\n     AND e = 3\n",
+    "SELECT\n    @ as z,\n  col_a a,\n      col_b  b\nfrom tbl\n",
+    "SELECT a FROM t WHERE b IN (@)  and c=1\nORDER BY a  desc\n",
+    "SELECT @ FROM t;\nSeLeCt  1 from tBl ;\n\n\nselect 2  ;\n",
+    "SELECT a,@,b\n  from  t  where a=@ and b =  @\n",
+    "SELECT  a\n-- comment @ here\nFROM t  where x = @\n",
+    "SELECT @\n\n\n   ,b   from t\n",
+    "WITH c AS (SELECT @ FROM t)\nselect  * from c join d  on c.a=d.a\n",
+    "SELECT '@', a  from t\nwhere b  = @\n",
+    "UPDATE t SET a = @,  b = 2\n  WHERE c  = @\n",
+    "INSERT INTO t (a, b) VALUES (@,  @)\n ;\n",
+    "SELECT a from t where a = @\n+\n",
+    "SELECT @ from t -- noqa: disable=\nselect  1\n",
+    "SELECT a,\n  (@ +  1 from t\n",
+    "SELECT a, @\n  from t )  where b  = 1\n",
+    "SELECT @ /* noqa: enable= */ ,  b\nfrom t  -- noqa: LT01,\n",
+];
+
+/// Replacement values: shorter / longer than a placeholder, multi-token, multi-line, empty.
+const VALUES: &[&str] = &[
+    "1",
+    "a",
+    "some_very_long_identifier_name_here",
+    "1000000000000",
+    "a, b",
+    "1 + 2",
+    "a  ,b",
+    "1,\n    2",
+    "col_a,\n  col_b,\n      col_c",
+    "x\n",
+    "\n1",
+    "'s'",
+    "1\n\n\n",
+    "",
+];
+
+const RULESETS8: &[&str] = &["LT01,LT02", "LT01,LT02,CP01,AL02", "LT01,LT02,CP01,CP02,AL01,AL02,LT05,LT12", "core", "all", "CP01", "LT02", "LT01"];
+
+struct VItem {
+    cls: &'static str,
+    dialect: String,
+    rules: String,
+    /// None = raw templater
+    style: Option<usize>,
+    values: Vec<(String, String)>,
+    sql: String,
+}
+
+fn mk_linter(it: &VItem) -> Linter {
+    let mut src = format!("[sqruff]\ndialect = {}\nrules = {}\n", it.dialect, it.rules);
+    if let Some(si) = it.style {
+        let st = &STYLES[si];
+        src.push_str("templater = placeholder\n\n[sqruff:templater:placeholder]\n");
+        match st.regex {
+            Some(r) => src.push_str(&format!("param_regex = {}\n", r)),
+            None => src.push_str(&format!("param_style = {}\n", st.name)),
+        }
+    }
+    let mut cfg = FluffConfig::from_source(&src, None);
+    if it.style.is_some() {
+        // replacement values are put into the config map directly: the ini reader trims values and
+        // cannot carry newlines
+        let ph = cfg.raw.get_mut("templater").unwrap().as_map_mut().unwrap().get_mut("placeholder").unwrap().as_map_mut().unwrap();
+        for (k, v) in &it.values {
+            ph.insert(k.clone(), Value::String(v.as_str().into()));
+        }
+    }
+    Linter::new(cfg, None, None, true)
+}
+
+fn item_json(it: &VItem) -> J {
+    json!({"kind":"viol","cls":it.cls,"dialect":it.dialect,"rules":it.rules,
+           "style":it.style.map(|s| STYLES[s].name),"values":it.values,"sql":it.sql})
+}
+
+struct Obs {
+    source: String,
+    templated: String,
+    /// (line_no, line_pos, source_slice, rule code, description)
+    viols: Vec<(usize, usize, (usize, usize), Option<&'static str>, String)>,
+    /// (source_slice, templated_slice, source_position, templated_position, line_no, line_pos)
+    markers: Vec<((usize, usize), (usize, usize), (usize, usize), (usize, usize), usize, usize)>,
+    /// source ranges of the templated slices with their length change (templated len - source len)
+    shifts: Vec<(usize, usize, i64)>,
+    /// non-leaf segments: (source, templated) ranges of the children, (source, templated) range of the parent
+    parents: Vec<(Vec<((usize, usize), (usize, usize))>, ((usize, usize), (usize, usize)))>,
+}
+
+fn observe(it: &VItem) -> Obs {
+    let linter = mk_linter(it);
+    let linted = linter.lint_string(&it.sql, None, false);
+    let tf = linted.templated_file.clone();
+    let viols = linted
+        .violations
+        .iter()
+        .map(|v| (v.line_no, v.line_pos, (v.source_slice.start, v.source_slice.end), v.rule.as_ref().map(|r| r.code), v.description.clone()))
+        .collect();
+    let tables = Tables::default();
+    let parsed = linter.parse_string(&tables, &it.sql, None).unwrap();
+    let mut markers = vec![];
+    let mut parents = vec![];
+    if let Some(tree) = &parsed.tree {
+        let mut all = tree.recursive_crawl_all(false);
+        all.push(tree.clone());
+        for seg in &all {
+            let kids: Vec<_> = seg
+                .segments()
+                .iter()
+                .filter_map(|c| c.get_position_marker().map(|pm| ((pm.source_slice.start, pm.source_slice.end), (pm.templated_slice.start, pm.templated_slice.end))))
+                .collect();
+            if let (false, Some(pm)) = (kids.is_empty(), seg.get_position_marker()) {
+                parents.push((kids, ((pm.source_slice.start, pm.source_slice.end), (pm.templated_slice.start, pm.templated_slice.end))));
+            }
+        }
+        parents.sort();
+        parents.dedup();
+        for seg in all {
+            if let Some(pm) = seg.get_position_marker() {
+                markers.push((
+                    (pm.source_slice.start, pm.source_slice.end),
+                    (pm.templated_slice.start, pm.templated_slice.end),
+                    pm.source_position(),
+                    pm.templated_position(),
+                    pm.line_no(),
+                    pm.line_pos(),
+                ));
+            }
+        }
+    }
+    markers.sort();
+    markers.dedup();
+    let shifts = tf
+        .sliced_file
+        .iter()
+        .filter(|s| s.slice_type == "templated")
+        .map(|s| (s.source_slice.start, s.source_slice.end, s.templated_slice.len() as i64 - s.source_slice.len() as i64))
+        .collect();
+    Obs { source: tf.source_str.clone(), templated: tf.templated().to_string(), viols, markers, shifts, parents }
+}
+
+fn g_range(r: (usize, usize)) -> String {
+    g_tuple(&[g_n(r.0), g_n(r.1)])
+}
+
+fn run_viol(it: &VItem, out: &mut Buf) {
+    out.count("files", 1);
+    let input = item_json(it);
+    let o = match catch(|| observe(it)) {
+        Ok(o) => o,
+        Err(msg) => {
+            // a crash is C03's subject; here it only means nothing was reported for this file
+            out.count("files_panicked_not_observed", 1);
+            out.count(&format!("panic:{}", trunc(&msg, 60)), 1);
+            return;
+        }
+    };
+    if it.style.is_some() {
+        out.count("files_placeholder_templated", 1);
+    }
+    let src = o.source.as_bytes();
+    let shifted_somewhere = o.shifts.iter().any(|s| s.2 != 0);
+    if shifted_somewhere {
+        out.count("files_with_length_changing_replacement", 1);
+    }
+    if o.templated.matches('\n').count() != o.source.matches('\n').count() {
+        out.count("files_with_line_count_changed_by_templating", 1);
+    }
+    out.count("violations", o.viols.len());
+    let mut nontrivial = false;
+    for (line, col, (s0, s1), code, desc) in &o.viols {
+        let class = match code {
+            Some(_) => "lint",
+            None if desc.contains("noqa") || desc.contains("Rule ") => "noqa-error",
+            None => "parse-error",
+        };
+        out.count(&format!("violations_{}", class), 1);
+        // net length change of the replacements wholly before the violation's source start
+        let delta: i64 = o.shifts.iter().filter(|s| s.1 <= *s0).map(|s| s.2).sum();
+        let changed_before = o.shifts.iter().any(|s| s.1 <= *s0 && s.2 != 0);
+        if changed_before {
+            out.count("violations_after_length_changing_replacement", 1);
+            let first_end = o.shifts.iter().filter(|s| s.2 != 0).map(|s| s.1).min().unwrap();
+            if src[first_end.min(src.len())..(*s0).min(src.len())].contains(&b'\n') {
+                out.count("violations_after_length_changing_replacement_on_later_line", 1);
+            }
+            if delta != 0 {
+                out.count("violations_with_nonzero_net_shift", 1);
+                nontrivial = true;
+            }
+        }
+        let in_file = s0 <= s1 && *s1 <= src.len();
+        let want = linecol(src, *s0);
+        let ok = in_file && (*line, *col) == want;
+        let key = format!("c08-{}", class);
+        let msg = format!(
+            "violation {:?} {:?} reported at {}:{} with source range {}..{} (file length {}); the start of that range is {}:{}",
+            code, trunc(desc, 60), line, col, s0, s1, src.len(), want.0, want.1
+        );
+        out.direct(&format!("violation-{}", class), ok, &key, &msg, input.clone());
+    }
+    let args = g_tuple(&[g_str(&o.source), g_str(&o.templated), g_list(o.viols.iter().map(|v| g_range(v.2)))]);
+    let exp = g_list(o.viols.iter().map(|v| g_tuple(&[g_n(v.0), g_n(v.1), g_range(v.2)])));
+    let sample = json!({"input":input,"source":o.source,
+        "violations":o.viols.iter().map(|v| json!({"line":v.0,"col":v.1,"source_slice":[v.2.0,v.2.1],"rule":v.3,"desc":trunc(&v.4,80)})).collect::<Vec<_>>()});
+    out.case("viol", it.cls, nontrivial, args, exp, sample);
+
+    // markers of the parse tree
+    out.count("markers", o.markers.len());
+    let mut bad = None;
+    for (s, t, sp, tp, ln, lp) in &o.markers {
+        let ok = s.0 <= s.1 && s.1 <= src.len() && *sp == linecol(src, s.0) && *tp == linecol(o.templated.as_bytes(), t.0) && (*ln, *lp) == *sp;
+        if !ok && bad.is_none() {
+            bad = Some(format!("marker source {:?} templated {:?}: source_position {:?} (recomputed {:?}), templated_position {:?} (recomputed {:?}), line_no/line_pos {}:{}",
+                s, t, sp, linecol(src, s.0), tp, linecol(o.templated.as_bytes(), t.0), ln, lp));
+        }
+        if s.0 != t.0 {
+            out.count("markers_with_shifted_start", 1);
+        }
+    }
+    out.direct("markers", bad.is_none(), "c08-marker", bad.as_deref().unwrap_or(""), input.clone());
+    // the Coq replay gets at most 24 markers per file (all are checked in Rust above): every
+    // k-th one, so that the whole file is covered
+    let step = o.markers.len().div_ceil(24).max(1);
+    let ms: Vec<_> = o.markers.iter().skip(step - 1).step_by(step).collect();
+    out.count("markers_replayed_in_coq", ms.len());
+    let margs = g_tuple(&[g_str(&o.source), g_str(&o.templated), g_list(ms.iter().map(|m| g_tuple(&[g_range(m.0), g_range(m.1)])))]);
+    let mexp = g_list(ms.iter().map(|m| g_tuple(&[g_n(m.2.0), g_n(m.2.1), g_n(m.3.0), g_n(m.3.1)])));
+    let msample = json!({"input":input,"source":o.source,"templated":o.templated,"n_markers":o.markers.len(),
+        "markers":ms.iter().map(|m| json!([m.0.0,m.0.1,m.1.0,m.1.1,m.2.0,m.2.1,m.3.0,m.3.1])).collect::<Vec<_>>()});
+    out.case("marker", it.cls, ms.iter().any(|m| m.0.0 != m.1.0), margs, mexp, msample);
+
+    // hypothesis of C08_parent_range (it is C15's conclusion): the ranges of the leaves lie in the file
+    let leaves_ok = o.markers.iter().all(|m| m.0.0 <= m.0.1 && m.0.1 <= src.len());
+    out.hyp("H_ranges_in_file", "blocking", leaves_ok, input.clone());
+
+    // parent markers = from_child_markers of the children
+    out.count("parents", o.parents.len());
+    let mut pbad = None;
+    for (kids, par) in &o.parents {
+        let want = (
+            (kids.iter().map(|k| k.0.0).min().unwrap(), kids.iter().map(|k| k.0.1).max().unwrap()),
+            (kids.iter().map(|k| k.1.0).min().unwrap(), kids.iter().map(|k| k.1.1).max().unwrap()),
+        );
+        if want != *par && pbad.is_none() {
+            pbad = Some(format!("parent marker {:?} but min/max over its {} children is {:?}", par, kids.len(), want));
+        }
+    }
+    out.direct("parents", pbad.is_none(), "c08-parent-marker", pbad.as_deref().unwrap_or(""), input.clone());
+    let pstep = o.parents.len().div_ceil(8).max(1);
+    let ps: Vec<_> = o.parents.iter().skip(pstep - 1).step_by(pstep).collect();
+    if !ps.is_empty() {
+        let g_m = |m: &((usize, usize), (usize, usize))| g_tuple(&[g_range(m.0), g_range(m.1)]);
+        let pargs = g_list(ps.iter().map(|(kids, _)| g_list(kids.iter().map(g_m))));
+        let pexp = g_list(ps.iter().map(|(_, par)| g_m(par)));
+        let psample = json!({"input":input,"parents":ps.iter().map(|(k, p)| json!({"children":k.len(),"parent":[p.0.0,p.0.1,p.1.0,p.1.1]})).collect::<Vec<_>>()});
+        out.case("parent", it.cls, ps.iter().any(|(k, _)| k.len() > 1), pargs, pexp, psample);
+    }
+}
+
+fn gen_viol(rng: &mut Rng, cls: &'static str, templated: bool) -> VItem {
+    let dialect = if rng.chance(1, 3) { DIALECTS[rng.below(DIALECTS.len())] } else { "ansi" }.to_string();
+    let rules = rng.pick(RULESETS8).to_string();
+    let mut skel = String::new();
+    let n = rng.range(1, 2);
+    for _ in 0..n {
+        skel.push_str(*rng.pick(SKELETONS));
+    }
+    if !templated {
+        // raw templater: fill the slots with ordinary expressions (possibly multi-line)
+        let mut sql = String::new();
+        for ch in skel.chars() {
+            if ch == '@' {
+                sql.push_str(*rng.pick(&["a", "1", "col_a,\n  col_b", "x  ", "1 + 2"]));
+            } else {
+                sql.push(ch);
+            }
+        }
+        return VItem { cls, dialect, rules, style: None, values: vec![], sql };
+    }
+    let si = rng.below(STYLES.len());
+    let st = &STYLES[si];
+    let mut sql = String::new();
+    let mut values: Vec<(String, String)> = vec![];
+    let mut k = 0usize;
+    for ch in skel.chars() {
+        if ch != '@' {
+            sql.push(ch);
+            continue;
+        }
+        let idx = if st.positional || st.numeric { k } else { rng.below(3) };
+        let (text, name) = placeholder(st, idx, rng);
+        sql.push_str(&text);
+        k += 1;
+        if !values.iter().any(|(n, _)| *n == name) && !rng.chance(1, 6) {
+            values.push((name, rng.pick(VALUES).to_string()));
+        }
+    }
+    VItem { cls, dialect, rules, style: Some(si), values, sql }
+}
+
+enum Item {
+    Lp(LpItem),
+    V(VItem),
+}
+
+fn item_from_json(v: &J) -> Item {
+    if v["kind"] == "linepos" {
+        Item::Lp(LpItem {
+            cls: "replay",
+            src: v["src"].as_str().unwrap().to_string(),
+            val: v["val"].as_str().map(|s| s.to_string()),
+            ps: v["ps"].as_array().unwrap().iter().map(|x| x.as_u64().unwrap() as usize).collect(),
+        })
+    } else {
+        let style = v["style"].as_str().map(|s| STYLES.iter().position(|t| t.name == s).unwrap());
+        Item::V(VItem {
+            cls: "replay",
+            dialect: v["dialect"].as_str().unwrap().to_string(),
+            rules: v["rules"].as_str().unwrap().to_string(),
+            style,
+            values: v["values"].as_array().map(|a| a.iter().map(|p| (p[0].as_str().unwrap().to_string(), p[1].as_str().unwrap().to_string())).collect()).unwrap_or_default(),
+            sql: v["sql"].as_str().unwrap().to_string(),
+        })
+    }
+}
+
+pub fn main(args: &Args) {
+    silence_panics();
+    let mut out = Out::new(&args.out);
+    let mut rng = Rng::new(args.seed);
+    let mut items: Vec<Item> = vec![];
+
+    if let Some(path) = args.flag("--replay-input") {
+        let v: J = serde_json::from_str(&std::fs::read_to_string(path).unwrap()).unwrap();
+        let v = if v.get("input").is_some() { v["input"].clone() } else { v };
+        items.push(item_from_json(&v));
+    } else {
+        // ---- regression corpus first
+        let colon = STYLES.iter().position(|s| s.name == "colon").unwrap();
+        let reg = |rules: &str, style: Option<usize>, values: &[(&str, &str)], sql: &str| {
+            Item::V(VItem {
+                cls: "regression",
+                dialect: "ansi".into(),
+                rules: rules.into(),
+                style,
+                values: values.iter().map(|(a, b)| (a.to_string(), b.to_string())).collect(),
+                sql: sql.into(),
+            })
+        };
+        // fixed d49d4e5: LT02 on source bytes 11..14 (2:1) was reported at 1:11
+        items.push(reg("LT02", Some(colon), &[("x", "1")], "SELECT :x,\n   b  from t\n"));
+        items.push(reg("LT01,LT02", Some(colon), &[("x", "1")], "SELECT :x,\n   b  from t\n"));
+        items.push(reg("LT01,LT02", Some(colon), &[("x", "some_long_value")], "SELECT :x,\n   b  from t\n"));
+        items.push(reg("LT01,LT02,CP01", Some(colon), &[("x", "1,\n  2")], "SELECT :x,\n   b  from t\n"));
+        // parse errors and noqa-directive errors
+        items.push(reg("LT01", None, &[], "SELECT 1\n+\n"));
+        items.push(reg("LT01", None, &[], "SELECT 1\n  from t -- noqa: disable=\n"));
+        items.push(reg("LT01", Some(colon), &[("x", "1000")], "SELECT :x\n  from t -- noqa:\n;\n  +\n"));
+
+        let (n_lp, n_raw, n_tpl) = if args.thorough() { (30000, 4000, 16000) } else { (2500, 400, 1600) };
+        for i in 0..n_lp {
+            let src0 = gen_text(&mut rng);
+            let templ = i % 3 == 2;
+            let (src, val) = if templ {
+                let mut s = src0.replace('x', "@");
+                if !s.contains('@') {
+                    s.insert(rng.below(s.len() + 1).min(s.len()), '@');
+                }
+                let v = rng.pick(&["", "\n", "vv\nv", "long long value", "\n\n"]).to_string();
+                (s, Some(v))
+            } else {
+                (src0, None)
+            };
+            let ps = gen_offsets(&mut rng, &src);
+            items.push(Item::Lp(LpItem { cls: if templ { "linepos-templated" } else { "linepos-raw" }, src, val, ps }));
+        }
+        for _ in 0..n_raw {
+            items.push(Item::V(gen_viol(&mut rng, "raw", false)));
+        }
+        for _ in 0..n_tpl {
+            items.push(Item::V(gen_viol(&mut rng, "placeholder", true)));
+        }
+    }
+    par_run(&mut out, &items, || (), |_, it, buf| match it {
+        Item::Lp(x) => run_linepos(x, buf),
+        Item::V(x) => run_viol(x, buf),
+    });
+    out.finish();
 }
